@@ -43,19 +43,58 @@ func constStr(s string) StrV {
 }
 
 // elemToTerm / elemFromTerm convert between executor values and SMT array elements.
+var theEngine *Engine
+
 func elemToTerm(v Value) *Term {
 	switch x := v.(type) {
 	case *Term:
 		return x
 	case StrV:
 		return strTerm(x)
+	case IfaceV:
+		return theEngine.ifaceRef(x)
 	}
 	panic(fmt.Sprintf("elemToTerm: %T", v))
+}
+
+var nilRef = Var("tq_nilref", SRef)
+
+// ifaceRef gives an interface value an identity term usable as an array element.
+func (e *Engine) ifaceRef(x IfaceV) *Term {
+	if x.Sym != nil {
+		return x.Sym.Ref
+	}
+	if x.Dyn == nil {
+		return nilRef
+	}
+	r := e.freshVar("ifc", SRef)
+	e.refPayload[r] = x
+	e.refFactsBy[r.VarName()] = []*Term{Not(App("tq_isnil", SBool, r)), Eq(App("tq_tag", SInt, r), Num(int64(e.typeID(x.Dyn))))}
+	return r
+}
+
+func (e *Engine) ifaceFromRef(r *Term, t types.Type) IfaceV {
+	if r == nilRef {
+		return IfaceV{}
+	}
+	if c, ok := e.refPayload[r]; ok {
+		return c
+	}
+	if s, ok := e.symByRef[r]; ok {
+		return IfaceV{Sym: s}
+	}
+	e.nVar++
+	s := &SymIface{ID: e.nVar, Name: "elem", T: t, Ref: r, Nil: App("tq_isnil", SBool, r), Tag: App("tq_tag", SInt, r), Cases: map[string]Value{}}
+	e.symByRef[r] = s
+	return IfaceV{Sym: s}
 }
 
 func elemFromTerm(t *Term, elem types.Type) Value {
 	if isString(elem) {
 		return strFromTerm(t)
+	}
+	if _, ok := under(elem).(*types.Interface); ok {
+		return theEngine.ifaceFromRef(t, elem)
 	}
 	if isInteger(elem) && t.Op == "select" {
 		if isUnsigned(elem) {
@@ -107,6 +146,8 @@ func (e *Engine) zeroArr(elem types.Type) ArrV {
 		av.Base = emptyArr
 	case SArrS:
 		av.Base = ConstArr(SArrS, strTerm(emptyStr()))
+	case SArrR:
+		av.Base = ConstArr(SArrR, nilRef)
 	}
 	return av
 }
@@ -442,6 +483,8 @@ func (e *Engine) mergeIface(c *Term, x, y IfaceV) (Value, bool) {
 	e.nVar++
 	s := &SymIface{ID: e.nVar, Name: "merged", Nil: Ite(c, e.ifaceNil(x), e.ifaceNil(y)), Tag: Ite(c, e.ifaceTag(x), e.ifaceTag(y)),
 		Ref: e.freshVar("mergedref", SRef), Cases: map[string]Value{}}
+	e.symByRef[s.Ref] = s
+	e.refFactsBy[s.Ref.VarName()] = []*Term{Iff(App("tq_isnil", SBool, s.Ref), s.Nil), Implies(Not(s.Nil), Eq(App("tq_tag", SInt, s.Ref), s.Tag))}
 	if x.Sym != nil {
 		s.T = x.Sym.T
 	} else if y.Sym != nil {
